@@ -1,0 +1,127 @@
+//go:build verif
+
+// Contracts for package policy (comment-only, read by /verif/govc; never compiled
+// into the product: the build tag "verif" is not set by any build of peerswap).
+package policy
+
+// ---------------------------------------------------------------------------
+// C25: policy changes apply immediately and survive a reload.
+//
+// Ghost model of the policy file: fileVersion counts successful writes;
+// uf("fileAllowlisted", v, k) / uf("fileSuspicious", v, k) / uf("fileAllowNew", v)
+// are what the INI parser reads out of version v of the file (ASSUMED semantics
+// of appending / removing whole `key=value` lines of a file in that canonical
+// form, see the two leaf contracts). loadedVersion is the file version the
+// in-memory policy was last parsed from; the policy is consistent when it
+// equals fileVersion.
+// ---------------------------------------------------------------------------
+//@ ghost fileVersion int
+//@ ghost loadedVersion int
+
+// OS file append (leaf, ASSUMED): a failed write changes nothing; appending the
+// line `<list key>=<value>` adds the value to that list, appending
+// `allow_new_swaps=<b>` makes b the effective value (last one wins)
+//@ func addLineToFile
+//@ trusted
+//@ forall k string
+//@ ensures result != nil ==> ghost.fileVersion == old(ghost.fileVersion)
+//@ ensures result == nil ==> ghost.fileVersion == old(ghost.fileVersion) + 1
+//@ ensures result == nil ==> uf("fileAllowlisted", false, ghost.fileVersion, k) == (uf("fileAllowlisted", false, old(ghost.fileVersion), k) || line == sprintf("allowlisted_peers=%s", k))
+//@ ensures result == nil ==> uf("fileSuspicious", false, ghost.fileVersion, k) == (uf("fileSuspicious", false, old(ghost.fileVersion), k) || line == sprintf("suspicious_peers=%s", k))
+//@ ensures result == nil ==> uf("fileAllowNew", false, ghost.fileVersion) == ite(line == "allow_new_swaps=true", true, ite(line == "allow_new_swaps=false", false, uf("fileAllowNew", false, old(ghost.fileVersion))))
+//@ assigns ghost.fileVersion
+
+// OS file rewrite without the given line (leaf, ASSUMED; the loop over the
+// scanner is library I/O): removing `<list key>=<value>` removes that value from
+// the list and nothing else
+//@ func removeLineFromFile
+//@ trusted
+//@ forall k string
+//@ ensures result != nil ==> ghost.fileVersion == old(ghost.fileVersion)
+//@ ensures result == nil ==> ghost.fileVersion == old(ghost.fileVersion) + 1
+//@ ensures result == nil ==> uf("fileAllowlisted", false, ghost.fileVersion, k) == (uf("fileAllowlisted", false, old(ghost.fileVersion), k) && line != sprintf("allowlisted_peers=%s", k))
+//@ ensures result == nil ==> uf("fileSuspicious", false, ghost.fileVersion, k) == (uf("fileSuspicious", false, old(ghost.fileVersion), k) && line != sprintf("suspicious_peers=%s", k))
+//@ assigns ghost.fileVersion
+
+// the INI parser (dependency, ASSUMED): the policy parsed from the current file
+//@ func create
+//@ trusted
+//@ forall k string
+//@ ensures result1 == nil ==> (result0 != nil && result0.path == "")
+//@ ensures result1 == nil ==> slices.Contains(result0.PeerAllowlist, k) == uf("fileAllowlisted", false, ghost.fileVersion, k)
+//@ ensures result1 == nil ==> slices.Contains(result0.SuspiciousPeerList, k) == uf("fileSuspicious", false, ghost.fileVersion, k)
+//@ ensures result1 == nil ==> result0.AllowNewSwaps == uf("fileAllowNew", false, ghost.fileVersion)
+//@ ensures result1 != nil ==> result0 == nil
+//@ sets ghost.loadedVersion = ite(result1 == nil, ghost.fileVersion, old(ghost.loadedVersion))
+//@ assigns nothing
+
+// the pubkey syntax check is a regular expression (library): a function of the text
+// (regexp.MatchString is treated as a deterministic function of pattern and text)
+
+//@ func (*Policy).ReloadFile
+//@ property C25
+//@ forall k string
+//@ requires p != nil
+//@ ensures @C25 reloaded-from-current-file: result == nil ==> ghost.loadedVersion == ghost.fileVersion
+//@ ensures @C25 lists-are-file: result == nil ==> (slices.Contains(p.PeerAllowlist, k) == uf("fileAllowlisted", false, ghost.fileVersion, k) && slices.Contains(p.SuspiciousPeerList, k) == uf("fileSuspicious", false, ghost.fileVersion, k))
+//@ ensures @C25 switch-is-file: result == nil ==> p.AllowNewSwaps == uf("fileAllowNew", false, ghost.fileVersion)
+//@ ensures @C25 path-kept: result == nil ==> p.path == old(p.path)
+//@ ensures @C25 never-writes: ghost.fileVersion == old(ghost.fileVersion)
+
+//@ func (*Policy).AddToAllowlist
+//@ property C25 C26
+//@ requires p != nil
+//@ ensures @C25 duplicate-rejected-untouched: old(slices.Contains(p.PeerAllowlist, pubkey)) ==> (result != nil && ghost.fileVersion == old(ghost.fileVersion) && ghost.loadedVersion == old(ghost.loadedVersion))
+//@ ensures @C25 invalid-rejected-untouched: !isValidPubkey(pubkey) ==> (result != nil && ghost.fileVersion == old(ghost.fileVersion) && ghost.loadedVersion == old(ghost.loadedVersion))
+//@ ensures @C25 takes-effect: result == nil ==> slices.Contains(p.PeerAllowlist, pubkey)
+//@ ensures @C25 written-and-reloaded: result == nil ==> (ghost.fileVersion == old(ghost.fileVersion) + 1 && ghost.loadedVersion == ghost.fileVersion && uf("fileAllowlisted", false, ghost.fileVersion, pubkey))
+
+//@ func (*Policy).AddToSuspiciousPeerList
+//@ property C25 C26
+//@ requires p != nil
+//@ ensures @C25 duplicate-rejected-untouched: old(slices.Contains(p.SuspiciousPeerList, pubkey)) ==> (result != nil && ghost.fileVersion == old(ghost.fileVersion) && ghost.loadedVersion == old(ghost.loadedVersion))
+//@ ensures @C25 invalid-rejected-untouched: !isValidPubkey(pubkey) ==> (result != nil && ghost.fileVersion == old(ghost.fileVersion) && ghost.loadedVersion == old(ghost.loadedVersion))
+//@ ensures @C25,C26 takes-effect: result == nil ==> slices.Contains(p.SuspiciousPeerList, pubkey)
+//@ ensures @C25,C26 written-and-reloaded: result == nil ==> (ghost.fileVersion == old(ghost.fileVersion) + 1 && ghost.loadedVersion == ghost.fileVersion && uf("fileSuspicious", false, ghost.fileVersion, pubkey))
+
+//@ func (*Policy).RemoveFromAllowlist
+//@ property C25
+//@ requires p != nil
+//@ ensures @C25 invalid-rejected-untouched: !isValidPubkey(pubkey) ==> (result != nil && ghost.fileVersion == old(ghost.fileVersion) && ghost.loadedVersion == old(ghost.loadedVersion))
+//@ ensures @C25 takes-effect: result == nil ==> !slices.Contains(p.PeerAllowlist, pubkey)
+//@ ensures @C25 written-and-reloaded: result == nil ==> (ghost.fileVersion == old(ghost.fileVersion) + 1 && ghost.loadedVersion == ghost.fileVersion && !uf("fileAllowlisted", false, ghost.fileVersion, pubkey))
+
+//@ func (*Policy).RemoveFromSuspiciousPeerList
+//@ property C25
+//@ requires p != nil
+//@ ensures @C25 invalid-rejected-untouched: !isValidPubkey(pubkey) ==> (result != nil && ghost.fileVersion == old(ghost.fileVersion) && ghost.loadedVersion == old(ghost.loadedVersion))
+//@ ensures @C25 takes-effect: result == nil ==> !slices.Contains(p.SuspiciousPeerList, pubkey)
+//@ ensures @C25 written-and-reloaded: result == nil ==> (ghost.fileVersion == old(ghost.fileVersion) + 1 && ghost.loadedVersion == ghost.fileVersion && !uf("fileSuspicious", false, ghost.fileVersion, pubkey))
+
+//@ func (*Policy).DisableSwaps
+//@ property C25
+//@ requires p != nil
+//@ ensures @C25 takes-effect: result == nil ==> !p.AllowNewSwaps
+//@ ensures @C25 consistent-after: (result == nil && old(p.AllowNewSwaps)) ==> (ghost.loadedVersion == ghost.fileVersion && !uf("fileAllowNew", false, ghost.fileVersion))
+//@ ensures @C25 idempotent: !old(p.AllowNewSwaps) ==> (result == nil && ghost.fileVersion == old(ghost.fileVersion))
+
+//@ func (*Policy).EnableSwaps
+//@ property C25
+//@ requires p != nil
+//@ ensures @C25 takes-effect: result == nil ==> p.AllowNewSwaps
+//@ ensures @C25 consistent-after: (result == nil && !old(p.AllowNewSwaps)) ==> (ghost.loadedVersion == ghost.fileVersion && uf("fileAllowNew", false, ghost.fileVersion))
+//@ ensures @C25 idempotent: old(p.AllowNewSwaps) ==> (result == nil && ghost.fileVersion == old(ghost.fileVersion))
+
+// what requests are decided on: the in-memory lists
+//@ func (*Policy).IsPeerAllowed
+//@ property C25
+//@ requires p != nil
+//@ ensures @C25 allowlist-or-all: result <==> (p.AcceptAllPeers || slices.Contains(p.PeerAllowlist, peer))
+//@ func (*Policy).IsPeerSuspicious
+//@ property C25 C26
+//@ requires p != nil
+//@ ensures @C25,C26 on-the-list: result <==> slices.Contains(p.SuspiciousPeerList, peer)
+//@ func (*Policy).NewSwapsAllowed
+//@ property C25
+//@ requires p != nil
+//@ ensures @C25 the-flag: result == p.AllowNewSwaps
